@@ -104,7 +104,7 @@ def models(wd, tier, seed):
 _OPT = "coarse" if os.environ.get("VERIF_ONCE_REFINE", "") == "off" else ""
 
 FAM = dict(driver="once", specdirs=["once", "lib"], opt=_OPT, monitor="OncePTrace", property_of=PROPERTY_OF, models=models,
-           n_random={"quick": 10000, "thorough": 200000},
+           n_random={"quick": 6000, "thorough": 200000},
            # M2: free-running parallel first calls of a memoized function (4 Ps)
            modes={"quick": [("burst", "burst", 2000, 4)], "thorough": [("burst", "burst", 100000, 4)]},
            x_specs=["once/Once.tla", "once/Memo.tla"], p_monitor="once/OnceP.tla",
